@@ -168,6 +168,8 @@ type ProxyOpts struct {
 	LogHTTPMode    string        // --log-http mode of the proxy ("" = the default, errors)
 	DialAttempts   int           // dial retry (default 1: a refused dial is final)
 	DialBackoff    time.Duration
+	RequestHeaders  []string // --header rules
+	ResponseHeaders []string // --response-header rules
 	ConnectHeaders []string // --connect-header rules, wired as command/run does (request modifier for CONNECT + GetProxyConnectHeader)
 	ResMods        []forwarder.ResponseModifier
 	ConnectFunc    forwarder.ConnectFunc
@@ -202,6 +204,7 @@ type ProxyInst struct {
 	RunErr   error
 	stopOnce sync.Once
 	fence    *dialFence
+	TLSListener bool // the instance speaks TLS to its clients
 	Tag      string // set by laboratories that mark every message of an instance
 	Seen     func() []string // optional: the requests the instance has received so far
 }
@@ -285,6 +288,27 @@ func StartProxy(o ProxyOpts) (*ProxyInst, error) {
 		cfg.LogHTTPMode = httplog.Mode(o.LogHTTPMode)
 	}
 	cfg.RequestModifiers = o.ReqMods
+	for _, set := range []struct {
+		rules []string
+		resp  bool
+	}{{o.RequestHeaders, false}, {o.ResponseHeaders, true}} {
+		var hs header.Headers
+		for _, r := range set.rules {
+			h, err := header.ParseHeader(r)
+			if err != nil {
+				return nil, fmt.Errorf("header rule %q: %w", r, err)
+			}
+			hs = append(hs, h)
+		}
+		if len(hs) == 0 {
+			continue
+		}
+		if set.resp {
+			cfg.ResponseModifiers = append(cfg.ResponseModifiers, hs)
+		} else {
+			cfg.RequestModifiers = append(cfg.RequestModifiers, hs)
+		}
+	}
 	var connectHeaders []header.Header
 	for _, r := range o.ConnectHeaders {
 		h, err := header.ParseHeader(r)
@@ -302,7 +326,7 @@ func StartProxy(o ProxyOpts) (*ProxyInst, error) {
 			return nil
 		}))
 	}
-	cfg.ResponseModifiers = o.ResMods
+	cfg.ResponseModifiers = append(cfg.ResponseModifiers, o.ResMods...)
 	cfg.ConnectFunc = o.ConnectFunc
 	cfg.TestingHTTPHandler = o.Handler
 	cfg.ProxyProtocolConfig = o.ProxyProtocol
